@@ -21,6 +21,32 @@ func init() {
 	gens["c05-bodies"] = c05Bodies
 	gens["c05-alltypes"] = c05AllTypes
 	gens["c05-golden"] = c05Golden
+	gens["c05-typenames"] = c05TypeNames
+}
+
+// c05TypeNames: every sequence of <=4 (quick) / <=5 (thorough) pieces as the type
+// name of an otherwise valid line, and through the text (un)marshalling entry points.
+func c05TypeNames(c *enumx.Ctx) {
+	pieces := []string{"UNKNOWN", "unknown", "[", "]", "1329", "0", "65535", "65536", "-1", "SYSCALL", "_", " ", "x", "99999999999999999999", "\x00", "="}
+	maxLen := 4
+	if c.Tier == "thorough" {
+		maxLen = 5
+	}
+	forSeqs(pieces, maxLen, func(name string) {
+		if !c.Mine() {
+			return
+		}
+		parseLine(c, "type="+name+" msg=audit(1700000000.123:42): a=b")
+		c.Begin(func() string { return "GetAuditMessageType(" + strconv.Quote(name) + ")" })
+		c.Try("C05", func() {
+			t, err := auparse.GetAuditMessageType(name)
+			var u auparse.AuditMessageType
+			uerr := u.UnmarshalText([]byte(name))
+			if (err == nil) != (uerr == nil) || (err == nil && t != u) {
+				c.Report("C05 typename-entry-points-disagree", fmt.Sprintf("GetAuditMessageType(%q) = (%d, %v) but UnmarshalText gives (%d, %v)", name, t, err, u, uerr), nil)
+			}
+		})
+	})
 }
 
 // tokens: one per literal / branch condition the parser reacts to.
